@@ -72,6 +72,8 @@ theorem idf_underflow {n N : ℕ} (h : N < n) (hn : n < 2 ^ 63) (h1 : 1 ≤ N) :
   · norm_num
     linarith
 
+example : idfR 1 5 < idfR 6 5 := idf_underflow (by decide) (by norm_num) (by decide)
+
 /-! ## the term score -/
 
 section score
@@ -114,6 +116,9 @@ theorem score_lt_weight (hk : 0 < k1) (hb0 : 0 ≤ b) (hb1 : b ≤ 1) (ha : 0 < 
   have : 0 < boost * idfR n N / (1 + (f : ℝ) * (1 / den k1 b avgdl dl)) := by positivity
   linarith
 
+example : (scorerOf 1.2 0.75 2 1 2 5).score 2 3 < 1 * idfR 2 5 :=
+  score_lt_weight (by norm_num) (by norm_num) (by norm_num) (by norm_num) (by norm_num) (by decide) (by norm_num) (by decide) (Or.inl (by norm_num))
+
 example : (0 : ℝ) < (scorerOf 1.2 0.75 2 1 2 5).score 2 3 :=
   score_pos (by norm_num) (by norm_num) (by norm_num) (by norm_num) (by norm_num) (by decide) (by norm_num) (by decide) (Or.inl (by norm_num))
 
@@ -135,6 +140,9 @@ theorem mono_freq {f' : ℕ} (hk : 0 < k1) (hb0 : 0 ≤ b) (hb1 : b ≤ 1) (ha :
        < (scorerOf k1 b avgdl boost n N).weight / (1 + (f : ℝ) * (1 / den k1 b avgdl dl)) := by
     apply div_lt_div_of_pos_left hw <;> linarith
   linarith
+
+example : (scorerOf 1.2 0.75 2 1 2 5).score 1 3 < (scorerOf 1.2 0.75 2 1 2 5).score 2 3 :=
+  mono_freq (by norm_num) (by norm_num) (by norm_num) (by norm_num) (by norm_num) (by decide) (by norm_num) (by decide) (by decide) (Or.inl (by norm_num))
 
 /-- **anti_len**: with everything else equal and `b > 0`, a longer field scores strictly lower -/
 theorem anti_len {dl' : ℕ} (hk : 0 < k1) (hb0 : 0 < b) (hb1 : b ≤ 1) (ha : 0 < avgdl) (hB : 0 < boost)
@@ -164,6 +172,9 @@ theorem anti_len {dl' : ℕ} (hk : 0 < k1) (hb0 : 0 < b) (hb1 : b ≤ 1) (ha : 0
     apply div_lt_div_of_pos_left hw <;> linarith
   linarith
 
+example : (scorerOf 1.2 0.75 2 1 2 5).score 1 4 < (scorerOf 1.2 0.75 2 1 2 5).score 1 3 :=
+  anti_len (by norm_num) (by norm_num) (by norm_num) (by norm_num) (by norm_num) (by decide) (by norm_num) (by decide) (by decide) (Or.inl (by norm_num))
+
 /-- with `b = 0` the field length does not matter at all -/
 theorem len_irrelevant_b0 {dl' : ℕ} : (scorerOf k1 0 avgdl boost n N).score f dl' = (scorerOf k1 0 avgdl boost n N).score f dl := by
   rw [score_closed, score_closed]
@@ -190,6 +201,9 @@ theorem anti_df_score {n' : ℕ} (hk : 0 < k1) (hb0 : 0 ≤ b) (hb1 : b ≤ 1) (
   have hfac : 0 < (f : ℝ) * (1 / den k1 b avgdl dl) / (1 + (f : ℝ) * (1 / den k1 b avgdl dl)) := by positivity
   have : boost * idfR n' N < boost * idfR n N := by nlinarith
   nlinarith
+
+example : (scorerOf 1.2 0.75 2 1 3 5).score 1 3 < (scorerOf 1.2 0.75 2 1 2 5).score 1 3 :=
+  anti_df_score (by norm_num) (by norm_num) (by norm_num) (by norm_num) (by norm_num) (by decide) (by decide) (by norm_num) (by decide) (Or.inl (by norm_num))
 
 /-- **boost_linear**: a boost scales the score linearly (no hypothesis: an identity of the coded expression) -/
 theorem boost_linear (c : ℝ) :
@@ -314,6 +328,10 @@ theorem explain_tf_node_formula (s : BM25Scorer ℝ) (f dl : ℕ) (hk : 0 < s.k1
   have hne3 : 1 + (f : ℝ) * (1 / D) ≠ 0 := by positivity
   field_simp
   ring
+
+example : ((scorerOf 1.2 0.75 2 1 2 5).explainTf 1 3).value = msgFormula_tf ((1 : ℕ) : ℝ) 1.2 0.75 ((3 : ℕ) : ℝ) 2 :=
+  (explain_tf_node_formula (scorerOf 1.2 0.75 2 1 2 5) 1 3 (by norm_num [scorerOf, newBM25Scorer]) (by norm_num [scorerOf, newBM25Scorer])
+    (by norm_num [scorerOf, newBM25Scorer]) (by norm_num [scorerOf, newBM25Scorer]) (Or.inr (by decide))).2
 
 /-- the score node: value = `boost * idf * tf` of its children, for every scorer built by `NewBM25Scorer`
 (weight = boost · idf.Value); the boost child is present iff `boost ≠ noBoost`, and absent it reads as `noBoost` -/
